@@ -56,10 +56,10 @@ class Scene:
     def temp_path(self, b):
         return "%s/%s/.%s.tar.gpg" % (cloud.CLOUD_ROOT, self.group, b)
 
-    def run(self, n, script=None, env=None, timeout=100):
+    def run(self, n, script=None, env=None, timeout=100, prefix=None):
         emu = cloud.Emu(self.sb.path("emu%d" % n), init=self.init, script=script)
         try:
-            r = cloud.run_upload(self.sb, emu, now=self.H.now + 500, timeout=timeout, extra_env=env)
+            r = cloud.run_upload(self.sb, emu, now=self.H.now + 500, timeout=timeout, extra_env=env, prefix=prefix)
             r["requests"] = emu.requests()
             r["files"] = emu.files(self.provider)
             r["emu"] = emu
@@ -236,6 +236,27 @@ def provider_sweep(ctx, rng, provider, budget):
             if pr:
                 ctx.violation("upload", pr, {"provider": provider, "local_fault": name, "output": r["out"][-800:]})
                 return
+        # a local backup file that cannot be read while the upload archives it: the k-th read of data.tar.zst / metadata.zst fails
+        for fname, when in (("data.tar.zst", 1), ("metadata.zst", 1), ("data.tar.zst", 2), ("metadata.zst", 2)):
+            victim = os.path.join(sc.st, sc.group, sc.backups[0], fname)
+            tf = sb.path("strace-unreadable.txt")
+            r = sc.run(n, prefix=["strace", "-f", "-o", tf, "-e", "trace=read", "-P", victim, "-e", "inject=read:error=EIO:when=%d" % when])
+            n += 1
+            ctx.evaluations += 1
+            injected = os.path.exists(tf) and "(INJECTED)" in open(tf, errors="replace").read()
+            ctx.count("local_fault.unreadable-%s-read%d%s" % (fname, when, "" if injected else "-not-reached"))
+            if injected:
+                ctx.nontrivial.add((provider, "unreadable", fname, when))
+            label = "%s, read #%d of %s failing with EIO" % (provider, when, fname)
+            pr = examine(sc, r, label, None)
+            if not pr and injected:
+                if r["blobs"].get(sc.final_path(sc.backups[0])):
+                    pr = "%s: a final-named object exists although the local file could not be read" % label
+                elif not slevel.errors_of(r["out"]):
+                    pr = "%s: no error reported" % label
+            if pr:
+                ctx.violation("upload", pr, {"provider": provider, "local_fault": label, "output": r["out"][-800:]})
+                return
         empty = sb.path("emptybin")
         os.makedirs(empty, exist_ok=True)
         r = sc.run(n, env={"PATH": empty})
@@ -259,7 +280,7 @@ def run(ctx):
     ctx.rule = ("for each of Dropbox, Yandex Disk, Google Drive: a local group of two backups made by real runs is uploaded to the emulator; one "
                 "undisturbed reference run, then %s (request, fault kind) pairs out of every request of the reference run x {4xx JSON, 5xx JSON, 5xx "
                 "text, malformed JSON, missing Content-Type, reset before body, reset inside body, server-side corruption, wrong reported checksum}, "
-                "each on a fresh emulator state; plus gpg dying mid-stream, gpg failing at once, gpg absent. Non-trivial: every faulted run; "
+                "each on a fresh emulator state; plus gpg dying mid-stream, gpg failing at once, gpg absent, and the first / second read of a backup's data.tar.zst / metadata.zst failing with EIO (strace injection). Non-trivial: every faulted run; "
                 "distinct by (provider, request index, kind)." % ("ALL" if thorough else "14 sampled (two thirds on upload routes)"))
     for provider in ("dropbox", "yandex", "google"):
         provider_sweep(ctx, rng, provider, budget)
